@@ -107,7 +107,8 @@ func (p *c06Pool) key(r *vhRng) []byte {
 }
 
 // value sizes around the V1 hashing threshold (32) and the inline Merkle-value threshold
-var c06ValueSizes = []int{0, 1, 1, 2, 31, 32, 32, 33, 40, 200}
+// and sizes that bring the encoding of a small leaf to exactly 31/32/33 bytes (inlined or hashed child)
+var c06ValueSizes = []int{0, 1, 1, 2, 27, 28, 29, 30, 31, 32, 32, 33, 40, 200}
 
 func c06Value(r *vhRng) []byte {
 	n := c06ValueSizes[r.Intn(len(c06ValueSizes))]
@@ -128,6 +129,7 @@ func c06Gen(r *vhRng) string {
 		p = c06StemPool(r)
 	}
 	present := [][]byte{}
+	last := map[string]string{} // last value put under a key
 	has := func(k []byte) int {
 		for i, x := range present {
 			if string(x) == string(k) {
@@ -139,7 +141,13 @@ func c06Gen(r *vhRng) string {
 	nops := 2 + r.Intn(13)
 	ops := make([]string, 0, nops+8)
 	put := func(k []byte) {
-		ops = append(ops, "put "+vhHex(k)+" "+vhHex(c06Value(r)))
+		v := vhHex(c06Value(r))
+		if old, ok := last[string(k)]; ok && r.Chance(1, 4) {
+			// put the value the key already has (or had): the "unchanged" paths
+			v = old
+		}
+		last[string(k)] = v
+		ops = append(ops, "put "+vhHex(k)+" "+v)
 		if has(k) < 0 {
 			present = append(present, k)
 		}
